@@ -8,13 +8,15 @@ RULE = ("random + boundary-aimed op sequences over suspend_point<void> and suspe
         "mode (sp0) and coroutine mode (sp1), every case closed by awaiting the object that holds the own handle, destroying "
         "all objects and flushing the ready queue; a case is non-trivial when at least one object crosses the inline->heap "
         "boundary (allocation observed in the model) or a merge/move/swap/create/await of a non-empty object occurs; "
-        "distinct = distinct op list")
+        "distinct = distinct op list; thorough adds all programs of length <= 4 over a 10-letter (coroutine mode, own handle, both await "
+        "forms) and a 9-letter (normal mode, growth, merges, swap) alphabet on two objects")
 SCOPE = ("suspend_point<void>/<X> add/pop/merge/move/swap/clear/await/destructor, value conversions and await_resume, "
          "coro_queue::create_suspend_point, and the ready-queue interaction of suspend_now/await_suspend/pause")
 ASSUMPTIONS = ["the awaiting coroutine's own handle (co_await self()) is in at most one place and is consumed only by co_await "
                "(pop/clear/destroy of the object holding it would resume a running coroutine: rejected as invalid input)",
                "coroutine-mode cases keep < 60 enqueues so that libstdc++ deque node allocation (C20 finding) stays outside C06's allocation accounting",
-               "own-handle-LAST awaits need fixes/C06-await-own-handle-last.patch (real-code defect: awaiter resumed twice, use-after-free)"]
+               "own-handle-LAST awaits: the model transcribes the library with fixes/C06-await-own-handle-last.patch (/repo 857b709); the unrepaired "
+               "code resumes the awaiter twice (use-after-free) on exactly these inputs (signature suffix :self-last)"]
 
 NSLOT = 6
 
@@ -236,6 +238,32 @@ def self_cases(eng, tag, sizes, last):
     return out
 
 
+def exhaustive():
+    """all programs of length <= 4 over a small alphabet on two objects (every Add uses a fresh handle)"""
+    import itertools
+    out = []
+    def build(eng, tag, prefix, letters, maxlen):
+        k = 0
+        for ln in range(1, maxlen + 1):
+            for word in itertools.product(range(len(letters)), repeat=ln):
+                ops = [list(o) for o in prefix]
+                h = 10
+                for w in word:
+                    for o in letters[w]:
+                        o = list(o)
+                        if o[0] == 2:
+                            h += 1; o[2] = h
+                        ops.append(o)
+                out.append(close_case(Case(eng, "%s%d" % (tag, k), ops))); k += 1
+    # coroutine mode: void object 0, typed object 1; own handle, merges both ways, both await forms, pause, pop
+    build("sp1", "xc", [[13, 0], [0, 1, 1001]],
+          [[[2, 0, 0]], [[2, 1, 0]], [[17, 0]], [[17, 1]], [[3, 0, 1]], [[3, 1, 0]], [[16, 0]], [[9, 1]], [[10]], [[6, 0]]], 4)
+    # normal mode: two void objects; growth to the heap, merges, merging move assignment, swap, pop, clear
+    build("sp0", "xn", [[13, 0], [13, 1]],
+          [[[2, 0, 0]], [[2, 0, 0]] * 4, [[2, 1, 0]], [[3, 0, 1]], [[3, 1, 0]], [[6, 0]], [[18, 0, 1]], [[7, 1]], [[11, 0, 1]]], 4)
+    return out
+
+
 def gen(seed, tier):
     rng = random.Random(seed * 7919 + 6)
     n = 300 if tier == "quick" else 4000
@@ -269,6 +297,8 @@ def gen(seed, tier):
         eng = "sp0" if i % 2 == 0 else "sp1"
         aim = rng.choice([[1, 2, 3], [3, 4], [4, 6, 7], [7, 12, 13], [1, 1, 25]])
         cases.append(gen_one(rng, eng, "g%d" % i, rng.randint(3, 25), aim))
+    if tier != "quick":
+        cases += exhaustive()
     # own handle LAST (needs fixes/C06-await-own-handle-last.patch): few, and at the end of the batch, because on the
     # unrepaired library each of them ends in a use-after-free
     sl = self_cases("sp1", "sl", (1, 2, 4, 5), True)
